@@ -44,6 +44,11 @@ def configs_for(prop, tier):
     Q(E, [(1, 'bugfix/s', 'stabilization/4.3.18')])
     Q(A, [p1], force_merge=True)
     Q(A, [])
+    # a destination published after the pull request was queued (create-branch job that died
+    # before the queues were rebuilt, or a branch pushed by hand): it has no q/ branch and the
+    # queued pull request has no q/w branch for it - the queues must be refused, not merged
+    Q(A, [(1, 'feature/a', 'development/4.3')], missing=['q/10.0', 'q/w/1/10.0/feature/a'])
+    Q(F, [p1], missing=['q/5.1', 'q/w/1/5.1/feature/a'])
     if tier == 'thorough':
         Q(B, [ps, p1])
         Q(B, [p1, ps])
@@ -99,6 +104,11 @@ def configs_for(prop, tier):
     Dm(C, (1, 'feature/a', 'development/5.1'), no_octopus=True)
     if prop == 'C08':
         Dm(F, p1, no_octopus=True, interfere=True)
+        # the complete handler with a third-party action before each of its pushes: jobs that end
+        # without merging (builds pending / failed) must not touch anything but w/ branches
+        cfg.append(dict(sc='H', shape=D, prs=[(1, 'feature/a', 'development/10.0')],
+                        opts=dict(mode='noqueue', no_octopus=True, interfere=True)))
+        cfg.append(dict(sc='H', shape=F, prs=[p1], opts=dict(mode='noqueue', no_octopus=True, interfere=True)))
     if prop in ('C01', 'C08'):
         # queueing itself must not move a destination
         cfg.append(dict(sc='AQ', shape=F, prs=[p1], opts=dict(no_octopus=True)))
@@ -165,7 +175,7 @@ def make_harness_factory(prop, tier, seed, sample_mod):
                     ctx, shape, prs, nat, mons, pre=pre_for(prop, c),
                     force_merge=c['opts'].get('force_merge', False),
                     reject=c['opts'].get('reject'), interfere=hook,
-                    nfresh=5 if hook else 4)
+                    nfresh=5 if hook else 4, drop=c['opts'].get('missing', ()))
                 scen = 'merge_queues'
                 if hook:
                     extra['third_party'] = hook.state['log']
@@ -174,10 +184,16 @@ def make_harness_factory(prop, tier, seed, sample_mod):
                     if prop == 'C03':
                         return [GF.mon_status(shape, byp)]
                     return mons
+                hook = None
+                if c['opts'].get('interfere'):
+                    hook = GF.make_interference(None, [p.src for p in prs])
                 repo, host, out = GF.scenario_handle_pr(
                     ctx, shape, prs[0], nat, c['opts']['mode'], mons_of,
-                    no_octopus=c['opts'].get('no_octopus', False), pre=pre_for(prop, c))
+                    no_octopus=c['opts'].get('no_octopus', False), pre=pre_for(prop, c), interfere=hook)
                 scen = 'handle_pr'
+                if hook:
+                    extra['third_party'] = hook.state['log']
+                    extra['job_merges'] = out in ('SuccessMessage', 'Queued')
             elif c['sc'] == 'AQ':
                 repo, host, out1, out = GF.scenario_queue_then_merge(
                     ctx, shape, prs[0], nat, no_octopus=c['opts'].get('no_octopus', True),
@@ -292,6 +308,8 @@ def signature(prop, data):
     tp = data.get('third_party')
     if tp:
         opts += (',' if opts else '') + 'third-party %s' % tp[0][0]
+        if data['scenario'] == 'handle_pr' and not data.get('job_merges'):
+            opts += ', job that does not merge'  
     return '%s [%s%s]' % (label, data['scenario'], (' ' + opts) if opts else '')
 
 
@@ -354,10 +372,13 @@ def run(rep, prop, extra_configs=None, sample_mod=None):
                 allvio.append(v)
             if r['diff']:
                 diffs.append(r['diff'])
-        if c['sc'] == 'Q' and c['prs'] and not any(r['out'] == 'Merged' and r['moved']
-                                                   for _, r in results):
+        if c['sc'] == 'Q' and c['prs'] and not c['opts'].get('missing') and not any(
+                r['out'] == 'Merged' and r['moved'] for _, r in results):
             rep.error('vacuity: no merging path in config %s' % name)
-        if c['sc'] == 'H' and not any(r['out'] in ('Queued', 'SuccessMessage') for _, r in results):
+        # (configurations with a missing queue branch: on a correct tree every path ends at the
+        # queue validation, possibly already while the path tree is being split - nothing to count)
+        if c['sc'] == 'H' and not c['opts'].get('interfere') and not any(
+                r['out'] in ('Queued', 'SuccessMessage') for _, r in results):
             rep.error('vacuity: whole handler never queued / merged in config %s' % name)
         if c['sc'] == 'AQ' and not any(r['out'] == 'queued/Merged' for _, r in results):
             rep.error('vacuity: config %s never queued and merged' % name)
